@@ -948,6 +948,15 @@ def oracle_c14(case, obs, res):
         if m.command == "open_run":
             new = [d["uid"] for n, d in emitted if n == "start"]
             if key in current:
+                tag = m.kwargs.get("tag")
+                if tag is not None and tag != "dup":
+                    # every generated open_run carries the key the plan author wrote as its tag ("dup" marks the
+                    # deliberate duplicates): two differently tagged runs must never arrive under one key
+                    res.fail(
+                        "distinct_runs_share_a_key",
+                        f"open_run tagged {tag!r} reached the engine with run key {key!r}, which already denotes an open run",
+                        **F(),
+                    )
                 # duplicate open on an open key: must be rejected at that yield, nothing emitted
                 if new:
                     res.fail("duplicate_open_emitted_start", f"open_run for already-open key {key!r} emitted a start", **F())
